@@ -6,6 +6,7 @@ import (
 	"slices"
 	"strings"
 	"unicode"
+	"unicode/utf8"
 
 	"golang.org/x/exp/constraints"
 )
@@ -18,6 +19,14 @@ func Exported(s string) string {
 		if strings.ToUpper(s) == initialism {
 			return initialism
 		}
+	}
+	if r, size := utf8.DecodeRuneInString(s); r >= utf8.RuneSelf {
+		// The first character is not ASCII: upper-case the whole rune, not
+		// its first byte.
+		if r == utf8.RuneError && size <= 1 {
+			return s
+		}
+		return string(unicode.ToUpper(r)) + s[size:]
 	}
 	return strings.ToUpper(s[0:1]) + s[1:]
 }
@@ -107,6 +116,14 @@ func Min[T cmp.Ordered](x ...T) T {
 // If the string is empty, false is returned. If the first character is a non-alphabetic
 // character, false is returned.
 func FirstIsLower(s string) bool {
+	if len(s) == 0 {
+		return false
+	}
+	if r, _ := utf8.DecodeRuneInString(s); r >= utf8.RuneSelf {
+		// The first character is not ASCII: inspect the whole rune, not
+		// its first byte.
+		return unicode.IsLetter(r) && !unicode.IsUpper(r)
+	}
 	first := rune(s[0])
 	if len(s) == 0 || !unicode.IsLetter(first) {
 		return false
